@@ -92,4 +92,39 @@ def op_sym(tree: str, scope: str) -> str:
     return f"str={s} val {v}"
 
 
+def op_symshape(axes: str) -> str:
+    """Shape[...] with several entries, then the annotation built from it"""
+    ents = []
+    try:
+        for a in axes.split(";"):
+            if a == "...":
+                ents.append(...)
+            elif a.startswith("anon("):
+                ents.append(dltype.AnonymousAxis(a[5:-1]))
+            elif a.startswith("const("):
+                k, n = a[6:-1].split(",")
+                ents.append(dltype.ConstantAxis(k, int(n)))
+            else:
+                toks = TOK.findall(a)
+                t, j = parse_term(toks)
+                if j != len(toks):
+                    return "bad-op"
+                x = build(t)
+                ents.append(x)
+        shape = dltype.Shape[tuple(ents)] if len(ents) != 1 else dltype.Shape[ents[0]]
+        s = str(shape)
+    except ZeroDivisionError:
+        return "printerr ZeroDivisionError"
+    except TypeError:
+        return "printerr TypeError"
+    except ValueError:
+        return "printerr ValueError"
+    try:
+        ann = dltype.TensorTypeBase[shape]
+    except Exception as e:  # noqa: BLE001
+        return f"str={s} => " + impl.exc_line(e)
+    return f"str={s} => ok " + impl.show_ann(ann)
+
+
 impl.HANDLERS["SYM"] = op_sym
+impl.HANDLERS["SYMSHAPE"] = op_symshape
